@@ -111,6 +111,10 @@ func (w *World) randScalar(forKey bool) atree.Value {
 	w.nextV++
 	switch r.Pick(40, 25, 20, 10, 5) {
 	case 0:
+		if r.Chance(40) { // exact CBOR width boundaries
+			bs := []uint64{0, 23, 24, 255, 256, 65535, 65536, 1<<32 - 1, 1 << 32, 1<<64 - 1}
+			return testutils.Uint64Value(bs[r.Intn(len(bs))])
+		}
 		vs := []uint64{0, 23, 24, 255, 256, 65535, 65536, 1 << 32}
 		return testutils.Uint64Value(vs[r.Intn(len(vs))] + w.nextV%7)
 	case 1:
@@ -152,6 +156,10 @@ func randStr(r *Rng, n int) string {
 func (w *World) randKey() atree.Value {
 	r := w.Rng
 	k := r.Intn(w.Opts.KeySpace)
+	if w.Opts.LargeVals && k%11 == 5 {
+		// a key above the inline key limit: stored in its own slab, the element holds a reference as KEY
+		return testutils.NewStringValue(fmt.Sprintf("K%03d%s", k, strings.Repeat("y", int(atree.MaxInlineMapKeySize())+k%9)))
+	}
 	if k%3 == 0 {
 		return testutils.NewStringValue(fmt.Sprintf("k%03d%s", k, strings.Repeat("x", k%17)))
 	}
